@@ -139,7 +139,11 @@ def to_trace(plan, raw, runno):
     """probe events -> the event vocabulary of AllocTrace (one run).  Returns (events, info)."""
     evs = raw["events"]
     if not any(e.get("ev") == "hello" for e in evs):
-        raise core.ToolError("gaprobe plan %d: no hello event (rc=%s)" % (plan["idx"], raw["rc"]))
+        if any(e.get("ev") == "boot" for e in evs):
+            # the worker threads could not be started (tiny-std's thread::spawn died): not the
+            # allocator's business (C05 judges that) - nothing to judge here, and not a tool failure
+            return [], {"ops": 0, "complete": False, "skipped": True, "null": 0, "threads": plan["threads"], "no_workers": True}
+        raise core.ToolError("gaprobe plan %d: no boot event (rc=%s)" % (plan["idx"], raw["rc"]))
     reset = next((e for e in evs if e.get("ev") == "reset"), None)
     ops = [e for e in evs if "op" in e]
     marks = [e for e in evs if e.get("ev") in ("high", "rep", "end")]
@@ -255,10 +259,14 @@ def run_part(chk, tier, builds=None):
             summary["runs"] += 1
             summary["operations"] += info["ops"]
             summary["skipped_runs"] += 1 if info["skipped"] else 0
-            summary["crashed_runs"] += 0 if info["complete"] else 1
+            summary["crashed_runs"] += 0 if (info["complete"] or info.get("no_workers")) else 1
+            if info.get("no_workers"):
+                summary["worker_threads_could_not_start"] = summary.get("worker_threads_could_not_start", 0) + 1
             if bname == builds[0][0]:
                 summary["per_plan"].append({"plan": p["idx"], "what": p["what"], "threads": p["threads"], "reps": p["reps"],
                                             "ops": info["ops"], "wall_s": round(raw["wall"], 2)})
+        if not events:
+            continue
         runs, bad = A.judge(chk, events, "galloc_%s_%s" % (pid, bname), procs=4, cfg=cfg)
         chk.evaluations += sum(1 for e in events if e["ev"] == "ret")
         seen = set()
